@@ -14,7 +14,7 @@ LFiles(q) == [k \in {r.id : r \in R(q)} |->
 LoggedPost(p) ==
   /\ plans' = p.plans /\ files' = LFiles(p.files) /\ gauges' = p.gauges
   /\ bal' = p.bal /\ now' = p.now /\ height' = p.height /\ par' = p.par
-Lbl(e) == [f \in (DOMAIN e) \ {"post", "x", "nexp"} |-> e[f]]
+Lbl(e) == [f \in (DOMAIN e) \ {"post", "x", "nexp", "den"} |-> e[f]]
 
 Special == {MODS, POL, FEES, "other"}
 ObsGone == (DOMAIN files) \ (DOMAIN files')
